@@ -384,6 +384,11 @@ pub fn front_for(valued: bool, rng: &mut Rng) -> Front {
 pub struct FromIterCase {
     pub entry: MemFront,
     pub items: Vec<Item>,
+    /// what the caller's iterator says about its length: 0 = nothing
+    /// (0, None); 1 = exact; 2 = "never ends by itself" (usize::MAX, None);
+    /// 3 = "empty" (0, Some(0)). A hint is a hint: the call must behave the
+    /// same for all four.
+    pub hint: u8,
 }
 
 pub struct FromIterRun {
@@ -396,6 +401,8 @@ pub struct FromIterRun {
 struct CountIt<I> {
     it: I,
     n: std::rc::Rc<std::cell::Cell<usize>>,
+    hint: u8,
+    left: usize,
 }
 impl<I: Iterator> Iterator for CountIt<I> {
     type Item = I::Item;
@@ -403,8 +410,17 @@ impl<I: Iterator> Iterator for CountIt<I> {
         let x = self.it.next();
         if x.is_some() {
             self.n.set(self.n.get() + 1);
+            self.left = self.left.saturating_sub(1);
         }
         x
+    }
+    fn size_hint(&self) -> (usize, Option<usize>) {
+        match self.hint {
+            1 => (self.left, Some(self.left)),
+            2 => (usize::MAX, None),
+            3 => (0, Some(0)),
+            _ => (0, None),
+        }
     }
 }
 
@@ -413,7 +429,8 @@ pub fn run_from_iter(case: &FromIterCase) -> FromIterRun {
     let n = std::rc::Rc::new(std::cell::Cell::new(0usize));
     let items = case.items.clone();
     let r = catch_unwind(AssertUnwindSafe(|| -> Result<Vec<u8>, fst::Error> {
-        let it = CountIt { it: items.into_iter(), n: n.clone() };
+        let left = items.len();
+        let it = CountIt { it: items.into_iter(), n: n.clone(), hint: case.hint, left };
         Ok(match case.entry {
             MemFront::SetFromIter => fst::Set::from_iter(it.map(|x| x.0))?.as_fst().as_bytes().to_vec(),
             MemFront::MapFromIter => fst::Map::from_iter(it)?.as_fst().as_bytes().to_vec(),
